@@ -212,7 +212,7 @@ def panic_rule(ctx, res, prod, roots, rule):
             # executed by the abstract interpreter in the parser model: any failing path is a product finding
             res.ob(True, rule, key, "", sample={"source": k, "discharged_by": "E2: block executed in the parser model for all four option valuations, asserted condition holds on every abstract state reaching it", "site": site})
             continue
-        a = allow.allowed(inst["path"], src["detail"])
+        a = allow.allowed(inst["path"], src["detail"], P, inst)
         if a is not None:
             res.ob(True, rule, key, "", sample={"source": k, "allowlisted": a["reason"], "site": site})
             continue
